@@ -65,6 +65,15 @@ def u2(prog, ctx, files):
                 d = dotted(n.slice)
                 if d and "." in d:
                     name_opts.setdefault(d.split(".")[-1], n.value.id)
+    # an attribute that is itself rebound to an Enum value (args.x = E[args.x]) changes type on the way: not decidable by name
+    for m, q, f in prog.all_functions():
+        for st in walk_no_nested(f):
+            if isinstance(st, ast.Assign):
+                for t in st.targets:
+                    if isinstance(t, ast.Attribute) and t.attr in name_opts and not (isinstance(st.value, ast.Constant) and isinstance(st.value.value, str)):
+                        if any(isinstance(x, ast.Name) and x.id in enums for x in ast.walk(st.value)) or not isinstance(st.value, (ast.Constant, ast.JoinedStr)):
+                            if any(isinstance(x, ast.Name) and x.id in enums for x in ast.walk(st.value)):
+                                name_opts.pop(t.attr, None)
     ctx.rule("U2", "an option attribute that is converted by Enum[<obj>.<opt>] holds the member's name (a str); it is never compared "
                    "with == / != / in against members of an Enum (constantly False); scoped to options whose derived settings an "
                    "anchor module of the property reads")
@@ -78,7 +87,8 @@ def u2(prog, ctx, files):
                 da = dotted(a)
                 if not (da and "." in da and da.split(".")[-1] in name_opts):
                     continue
-                members = [x for x in ast.walk(b) if isinstance(x, ast.Attribute) and isinstance(x.value, ast.Name) and x.value.id in enums]
+                members = [x for x in ast.walk(b) if isinstance(x, ast.Attribute) and isinstance(x.value, ast.Name) and x.value.id in enums
+                           and not x.attr.startswith("__")]
                 if not members:
                     continue
                 # scope: what is decided under this comparison
